@@ -127,3 +127,9 @@ package dst
 //@ ensures holds_the_files: result.Files == files
 //@ loop 1 invariant scope: pkgScope != nil && !wasAllocated(pkgScope) && pkgScope.Outer == universe
 //@ loop 3 invariant scope: pkgScope != nil && !wasAllocated(pkgScope) && pkgScope.Outer == universe
+
+// The function handed to Inspect: assumed, like any visitor, not to modify the tree being walked.
+//@ func callback.f
+//@ trusted
+//@ attr params = n
+//@ modifies nothing
